@@ -114,6 +114,9 @@ func runCrash2(t *testing.T, sc Scenario2, crashes []CrashSpec, run int, w io.Wr
 	trs := map[string]*vtrace.Tracer{"a": vtrace.New(lw, run*10+1), "b": vtrace.New(lw, run*10+2)}
 	scs := map[string]Scenario{"a": sc.A, "b": sc.B}
 	ids := map[string]string{"a": "m" + strconv.Itoa(sc.ID) + "xa", "b": "m" + strconv.Itoa(sc.ID) + "xb"}
+	if sc.ID%2 == 1 { // the start-up scan goes through the spool in name order: let B come first on odd pairs
+		ids["a"] = "n" + strconv.Itoa(sc.ID) + "xa"
+	}
 	senders := map[string]string{"a": "sender-a@example.com", "b": "sender-b@example.com"}
 	started := map[string]bool{}
 	var stMu sync.Mutex
@@ -344,7 +347,22 @@ func TestCrash2(t *testing.T) {
 			continue
 		}
 		base := runCrash2(t, s, nil, next(), w)
-		for _, p1 := range pick(rng, points(base.ops[0]), n1) {
+		// what two messages in one spool add over one is what a half-removed entry of one message does to
+		// the recovery of the other: a stop before every unlink is always tried, the other points are sampled
+		var sel []CrashSpec
+		seen := map[CrashSpec]bool{}
+		for _, o := range base.ops[0] {
+			if o.Op == "remove" {
+				c := CrashSpec{K: o.N, Strength: "ordered"}
+				sel, seen[c] = append(sel, c), true
+			}
+		}
+		for _, c := range pick(rng, points(base.ops[0]), n1) {
+			if !seen[c] {
+				sel, seen[c] = append(sel, c), true
+			}
+		}
+		for _, p1 := range sel {
 			r1 := runCrash2(t, s, []CrashSpec{p1}, next(), w)
 			if n2 == 0 || len(r1.ops) < 2 {
 				continue
